@@ -48,6 +48,11 @@ const (
 //   G <key> <max gauge>            end of execution: max concurrent queries of key
 //   F <store content>              end of execution: content of the cache store
 //   N <GETs>                       end of execution: number of GET commands = number of flights
+// fault scenarios only (spy around the injected SingleFlight, go-redis hook in the calling thread):
+//   T <reader> t<id>               controlled thread id of the reader
+//   B t<id> / J t<id> <fresh>      the thread enters / leaves the barrier's DoEx (fresh = it led the flight)
+//   X t<id> <CMD> <ck> <reply>     the thread's redis command on cache key ck was answered ok | miss | ERR
+//   O on|off                       the outage thread switched the store to error mode / back
 
 func readersScenario(name, mode string, readers []readerSpec) vx.Scenario {
 	return readersScenarioPK(name, mode, "small", readers)
@@ -62,6 +67,38 @@ func ckOfRow(k string) string {
 }
 
 func readersScenarioPK(name, mode, shapeName string, readers []readerSpec) vx.Scenario {
+	return readersScenarioX(name, mode, shapeName, "", readers)
+}
+
+// spyFlight wraps the SingleFlight handed to the cache node: it only logs who enters and leaves
+// the barrier and whether the call led its flight (DoEx's own `fresh` result).
+type spyFlight struct{ inner syncx.SingleFlight }
+
+func (s spyFlight) Do(key string, fn func() (any, error)) (any, error) {
+	v, _, err := s.DoEx(key, fn)
+	return v, err
+}
+
+func (s spyFlight) DoEx(key string, fn func() (any, error)) (any, bool, error) {
+	t := vsched.ThreadID()
+	vsched.Log("B t%d", t)
+	v, fresh, err := s.inner.DoEx(key, fn)
+	vsched.Log("J t%d %v", t, fresh)
+	return v, fresh, err
+}
+
+const (
+	faultOutage = "outage"     // a thread turns the store to error mode, another one turns it back
+	faultDel    = "invalidate" // a thread deletes the readers' cache key (what Exec does after a write; the row is unchanged)
+)
+
+var shortCK = map[string]string{keyP1: "p1", keyP2: "p2", keyIx: "ix"}
+
+func isStoreErr(res string) bool { return strings.HasPrefix(res, "err:ERR_c06") }
+
+// readersScenarioX: fault = "" | faultOutage | faultDel adds fault / writer threads whose single
+// step the explorer places at every point of the readers' flights.
+func readersScenarioX(name, mode, shapeName, fault string, readers []readerSpec) vx.Scenario {
 	sh := shapeByName(shapeName)
 	body := func() {
 		shape = sh
@@ -69,12 +106,25 @@ func readersScenarioPK(name, mode, shapeName string, readers []readerSpec) vx.Sc
 		if mode == cacheDown {
 			env.setOutage(true)
 		}
+		var barrier syncx.SingleFlight = syncx.NewSingleFlight()
+		if fault != "" {
+			barrier = spyFlight{barrier}
+			env.cmdHook = func(cmd, key, reply string) {
+				if vsched.Managed() {
+					ck := shortCK[env.single.canonical(key)]
+					if ck == "" {
+						ck = key
+					}
+					vsched.Log("X t%d %s %s %s", vsched.ThreadID(), cmd, ck, reply)
+				}
+			}
+		}
 		nq := 0
 		gauges := map[string]*vsched.Var{"p1": {}, "p2": {}, "ix": {}}
 		db := newFakeDB()
 		opts := []cache.Option{cache.WithExpiry(expiry), cache.WithNotFoundExpiry(notFoundExpiry)}
 		// one node, one barrier: Take goes to the node, QueryRow through a CachedConn over the same node
-		node := cache.NewNode(env.rds, syncx.NewSingleFlight(), env.st, sql.ErrNoRows, opts...)
+		node := cache.NewNode(env.rds, barrier, env.st, sql.ErrNoRows, opts...)
 		cc := sqlc.NewConnWithCache(db, node)
 		// key: the row the reader is after; ck: the cache key this query loads; primary: the argument
 		// of a primary-key query that the cached layer supplied (nil: the caller's own typed key)
@@ -130,6 +180,9 @@ func readersScenarioPK(name, mode, shapeName string, readers []readerSpec) vx.Sc
 				ck := env.single.real(cacheKeyOf(rs.key))
 				var row Row
 				var err error
+				if fault != "" {
+					vsched.Log("T %s t%d", me, vsched.ThreadID())
+				}
 				vsched.Log("C %s", me)
 				switch rs.api {
 				case "take":
@@ -172,6 +225,33 @@ func readersScenarioPK(name, mode, shapeName string, readers []readerSpec) vx.Sc
 				vsched.Log("R %s %s", me, res)
 			})
 		}
+		switch fault {
+		case faultOutage:
+			// two one-step threads so that beginning and end of the outage are placed independently
+			began := vsched.MakeChan[int](1)
+			wg.Add(2)
+			vsched.GoNamed("outage", false, func() {
+				defer wg.Done()
+				vsched.Op("outage-begins")
+				env.setOutage(true)
+				vsched.Log("O on")
+				vsched.Send(began, 1)
+			})
+			vsched.GoNamed("recovery", false, func() {
+				defer wg.Done()
+				vsched.Recv(began)
+				vsched.Op("outage-ends")
+				env.setOutage(false)
+				vsched.Log("O off")
+			})
+		case faultDel:
+			wg.Add(1)
+			vsched.GoNamed("invalidate", false, func() {
+				defer wg.Done()
+				vsched.Op("invalidate")
+				node.Del(env.single.real(cacheKeyOf(readers[0].key)))
+			})
+		}
 		wg.Wait()
 		for _, k := range []string{"p1", "p2", "ix"} {
 			vsched.Log("G %s %d", k, gauges[k].Max())
@@ -211,9 +291,30 @@ func readersScenarioPK(name, mode, shapeName string, readers []readerSpec) vx.Sc
 		callPos, retPos, result := map[string]int{}, map[string]int{}, map[string]string{}
 		gauge := map[string]string{}
 		final, gets := "", ""
+		type xT struct {
+			by, cmd, ck, reply string
+			pos                int
+		}
+		var xs []xT // redis commands with the reader (or thread) that issued them
+		readerOf := map[string]string{}
+		bPos, jPos, fresh := map[string]int{}, map[string]int{}, map[string]bool{}
+		who := func(t string) string {
+			if r := readerOf[t]; r != "" {
+				return r
+			}
+			return t
+		}
 		for pos, l := range e.Log() {
 			f := strings.Fields(l)
 			switch f[0] {
+			case "T":
+				readerOf[f[2]] = f[1]
+			case "B":
+				bPos[who(f[1])] = pos
+			case "J":
+				jPos[who(f[1])], fresh[who(f[1])] = pos, f[2] == "true"
+			case "X":
+				xs = append(xs, xT{by: who(f[1]), cmd: f[2], ck: f[3], reply: f[4], pos: pos})
 			case "C":
 				callPos[f[1]] = pos
 			case "S":
@@ -256,6 +357,19 @@ func readersScenarioPK(name, mode, shapeName string, readers []readerSpec) vx.Sc
 				}
 			}
 		}
+		// did the entry of ck legitimately vanish (or never appear) between log positions from and to:
+		// a write-back that the store refused (logged only, on the unchanged tree), or a DEL
+		vanished := func(ck string, from, to int) bool {
+			for _, x := range xs {
+				if x.ck != ck || x.pos < from || x.pos > to {
+					continue
+				}
+				if (x.cmd == "DEL" && x.reply != "ERR") || (strings.HasPrefix(x.cmd, "SET") && x.reply == "ERR") {
+					return true
+				}
+			}
+			return false
+		}
 		ownQueries := map[string]int{}
 		perKey := map[string]int{}
 		cacheable := map[string]int{} // per key: log position at which a cacheable (row / not-found) query ended
@@ -268,7 +382,7 @@ func readersScenarioPK(name, mode, shapeName string, readers []readerSpec) vx.Sc
 			if q.start < callPos[q.by] || q.end > retPos[q.by] {
 				return vx.Verdict{Class: "query-outside-its-read", Msg: fmt.Sprintf("query %s ran outside the call of its reader %s", q.id, q.by)}
 			}
-			if p, ok := cacheable[q.ck]; ok && q.start > p {
+			if p, ok := cacheable[q.ck]; ok && q.start > p && !vanished(q.ck, p, q.start) {
 				return vx.Verdict{Class: "cached-entry-requeried", Msg: fmt.Sprintf("query %s loading cache key %s started after an earlier query had produced a cacheable result (row / not found) for that key: the entry was not served from the cache", q.id, q.ck)}
 			}
 			if !strings.HasPrefix(q.res, "dberr:") {
@@ -293,9 +407,51 @@ func readersScenarioPK(name, mode, shapeName string, readers []readerSpec) vx.Sc
 			rds = append(rds, rd)
 		}
 		sort.Strings(rds)
+		if fault != "" {
+			// Per reader, from what it did at the store itself and at the barrier. A reader that LED a
+			// flight (fresh) starts with the cache lookup: if the store refused that GET the read fails fast
+			// with the store's error and no query; if the GET was answered the read returns the database's
+			// answer (source checked below) - a failing write-back is logged, never returned. A reader that
+			// WAITED in the barrier (not fresh) receives the result of a flight that overlapped its wait.
+			for _, rd := range rds {
+				res := result[rd]
+				if _, in := jPos[rd]; !in {
+					return vx.Verdict{Class: "harness-fault-scenario", Msg: fmt.Sprintf("reader %s never went through the barrier", rd)}
+				}
+				if fresh[rd] {
+					first := ""
+					for _, x := range xs {
+						if x.by == rd && x.pos > callPos[rd] && x.pos < retPos[rd] {
+							first = x.cmd + ":" + x.reply
+							break
+						}
+					}
+					switch {
+					case first == "GET:ERR" && !isStoreErr(res):
+						return vx.Verdict{Class: "cache-outage-not-reported:concurrent", Msg: fmt.Sprintf("reader %s led a flight whose cache lookup was refused by the store and returned %s instead of the store's error", rd, res)}
+					case first == "GET:ERR" && ownQueries[rd] > 0:
+						return vx.Verdict{Class: "db-queried-during-cache-outage:concurrent", Msg: fmt.Sprintf("reader %s queried the database although its cache lookup was refused by the store", rd)}
+					case first != "GET:ERR" && isStoreErr(res):
+						return vx.Verdict{Class: "store-error-returned-after-answered-lookup", Msg: fmt.Sprintf("reader %s led a flight whose cache lookup was answered (%s) and still returned the cache store's error %s", rd, first, res)}
+					}
+					continue
+				}
+				ok := false
+				var led []string
+				for _, l := range rds {
+					if l != rd && fresh[l] && keyOf[l] == keyOf[rd] && bPos[l] < jPos[rd] && jPos[l] > bPos[rd] {
+						led = append(led, l+"="+result[l])
+						ok = ok || result[l] == res
+					}
+				}
+				if !ok {
+					return vx.Verdict{Class: "follower-did-not-receive-flight-result", Msg: fmt.Sprintf("reader %s waited in the barrier for a flight of key %s (it did not lead one) and returned %s; the flights that overlapped its wait returned %v", rd, keyOf[rd], res, led)}
+				}
+			}
+		}
 		for _, rd := range rds {
 			res := result[rd]
-			if mode == cacheDown {
+			if mode == cacheDown || (fault != "" && isStoreErr(res)) {
 				srcs = append(srcs, "E")
 				continue
 			}
@@ -392,6 +548,8 @@ func readersScenarioPK(name, mode, shapeName string, readers []readerSpec) vx.Sc
 			switch {
 			case len(c) == 0 && g != "":
 				return vx.Verdict{Class: "failed-read-cached:concurrent", Msg: fmt.Sprintf("cache key %s holds %s although no query produced a cacheable result for it", ck, g)}
+			case len(c) > 0 && g == "" && vanished(ck, 0, len(e.Log())):
+				// the write-back was refused or the key was invalidated afterwards
 			case len(c) > 0 && !c[g]:
 				var cs []string
 				for x := range c {
@@ -447,6 +605,31 @@ func scheduleScenarios(thorough bool) []vx.Scenario {
 		readersScenarioPK("3-index-readers/pk-small/cache-outage", cacheDown, "small", idx3),
 		readersScenarioPK("2-index+1-primary-readers/pk-huge/db-fails-once", dbFailOnce, "huge", idx2q),
 	)
+	// faults and invalidations at every point of the readers' flights. Bounds are set per scenario:
+	// 4-5 threads; the two-reader systems are complete at P=2 within seconds, the three-reader ones
+	// run at P=1 (quick) / P=2 (thorough).
+	pair := []readerSpec{{"take", "k1"}, {"qrow", "k1"}}
+	bound := func(sc vx.Scenario, quickP, thoroughP int) vx.Scenario {
+		sc.SetBound, sc.P, sc.T = true, quickP, 0
+		if thorough {
+			sc.P = thoroughP
+		}
+		return sc
+	}
+	sc = append(sc,
+		bound(readersScenarioX("2-readers+outage/row-present", dbPresent, "small", faultOutage, pair), 2, 3),
+		bound(readersScenarioX("3-readers+outage/row-present", dbPresent, "small", faultOutage, same3), 1, 2),
+		bound(readersScenarioX("2-readers+invalidation/row-present", dbPresent, "small", faultDel, pair), 2, 3),
+		bound(readersScenarioX("3-readers+invalidation/row-present", dbPresent, "small", faultDel, same3), 2, 2),
+	)
+	if thorough {
+		sc = append(sc,
+			bound(readersScenarioX("2-readers+outage/row-absent", dbAbsent, "small", faultOutage, pair), 2, 3),
+			bound(readersScenarioX("2-readers+outage/db-fails-once", dbFailOnce, "small", faultOutage, pair), 2, 3),
+			bound(readersScenarioX("3-readers+invalidation/row-absent", dbAbsent, "small", faultDel, same3), 2, 2),
+			bound(readersScenarioX("2-readers+invalidation/pk-huge/row-present", dbPresent, "huge", faultDel, pair), 2, 3),
+		)
+	}
 	if thorough {
 		sc = append(sc,
 			readersScenario("3-takes/row-present", dbPresent, take3),
